@@ -506,6 +506,11 @@ def to_replay(c):
 
 
 def replay(ctx, d):
+    if "history" in d:
+        _, v = run_history(d["history"])
+        if v:
+            print("  ", v[1])
+        return v is not None
     if "gen" in d:
         c = dict(d, sample=large_sample(d["gen"]["seed"], d["gen"]["n"]))
     else:
@@ -535,6 +540,75 @@ def seastate_model(rng=None):
     d1 = {"distribution": LogNormalDistribution(), "conditional_on": 0,
           "parameters": {"mu": DependenceFunction(_power3, bounds), "sigma": DependenceFunction(_exp3, bounds)}}
     return GlobalHierarchicalModel([d0, d1])
+
+
+def transformed_model(name, fit_seed):
+    """a 2-D TransformedModel built through the public API: the sea-state model expressed in Hs-Tp space, or one of the predefined
+    exponentiated-Weibull Hs-steepness models (their own triples + transformations) fitted to data drawn from the sea-state model"""
+    from virocon import GlobalHierarchicalModel, TransformedModel, variable_transform
+    ghm = seastate_model()
+    if name == "hs-tp":
+        f = 1.2796
+        return TransformedModel(ghm, lambda a: np.c_[a[:, 0], a[:, 1] / f], lambda a: np.c_[a[:, 0], a[:, 1] * f],
+                                lambda a: np.full(len(a), 1 / f)), None
+    from virocon.predefined import get_Windmeier_EW_Hs_S, get_Nonzero_EW_Hs_S
+    dd, fd, _, tr = (get_Windmeier_EW_Hs_S if name == "windmeier" else get_Nonzero_EW_Hs_S)()
+    data = ghm.draw_sample(3000, random_state=fit_seed)
+    _, steep = variable_transform.hs_tz_to_hs_s(data[:, 0], data[:, 1])
+    inner = GlobalHierarchicalModel(dd)
+    inner.fit(np.c_[data[:, 0], steep], fd)
+    return TransformedModel(inner, tr["transform"], tr["inverse"], tr["jacobian"], precision_factor=0.2), data
+
+
+def run_history(spec):
+    """A history on one TransformedModel: contour without a sample, then a public call that makes the model keep a large Monte-Carlo
+    sample of its own (empirical_cdf / .sample), then contours without a sample again (other alpha, same alpha twice), then a re-fit
+    and one more.  Every contour must be computed from int(100/alpha) freshly drawn points.  Returns (n_contours, violation or None)."""
+    np.random.seed(spec["seed"] % (2 ** 32))
+    model, data = transformed_model(spec["model"], spec["seed"] % 1000)
+    ds = spec["deg_step"]
+    done = 0
+    prev = None
+
+    def contour(alpha, stage):
+        nonlocal done, prev
+        c = {"cloud": -3, "kind": "history", "alpha": alpha, "deg_step": ds, "supplied": False, "n": None}
+        r = run_impl(None, alpha, ds, supplied=False, gen=lambda n: model.draw_sample(n))
+        c["sample"] = r["sample_attr"] if "err" not in r else np.zeros((50, 2))
+        done += 1
+        o = oracle(c, r)
+        if o is None and "err" not in r and prev is not None and len(prev) and len(r["sample_attr"]) >= len(prev) \
+                and np.array_equal(prev, r["sample_attr"][:len(prev)]):
+            o = ({"class": "DirectSamplingContour", "clause": "sample-size"},
+                 "no sample supplied: the contour was computed from the same points as the previous contour of this model (nothing was drawn)")
+        prev = None if "err" in r else r["sample_attr"]
+        if o is not None:
+            o[0]["history"] = "TransformedModel"
+            return (o[0], "TransformedModel(%s), %s: %s" % (spec["model"], stage, o[1]))
+        return None
+
+    a1, a2 = spec["alphas"]
+    v = contour(a1, "fresh model")
+    if v is None:
+        if spec["access"] == "empirical_cdf":
+            model.empirical_cdf([[2.0, 8.0]])
+        else:
+            _ = model.sample
+        v = contour(a1, "after %s" % spec["access"]) or contour(a2, "after %s, other alpha" % spec["access"]) or contour(a2, "same alpha again")
+    if v is None and data is not None:
+        model.fit(data[: len(data) // 2])
+        v = contour(a1, "after a re-fit")
+    return done, v
+
+
+def history_specs(ctx):
+    names = ["hs-tp", "windmeier", "nonzero"]
+    out = []
+    for k in range(ctx.n(3, 9)):
+        out.append({"model": names[k % 3], "seed": ctx.rng.randrange(2 ** 31), "deg_step": ctx.rng.choice([6, 10, 15, 30]),
+                    "alphas": [ctx.rng.choice([0.01, 0.02, 0.05]), ctx.rng.choice([0.1, 0.07, 0.004])],
+                    "access": "empirical_cdf" if k % 2 == 0 else "sample"})
+    return out
 
 
 def real_model_cases(ctx):
@@ -651,6 +725,21 @@ def run(ctx):
         o2 = (oracle(small) if small is not c else None) or o
         if ctx.violation(o2[0], o2[1], to_replay(small)):
             found += 1
+    # ---- histories on real TransformedModels (the drawn-sample clause after the model cached a sample of its own)
+    try:
+        nh = 0
+        for spec in history_specs(ctx):
+            if found >= 8:
+                break
+            done, v = run_history(spec)
+            nh += done
+            if v is not None and ctx.violation(v[0], v[1], {"history": spec}):
+                found += 1
+        ctx.cov["evaluations"] += nh
+        ctx.notes["history_contours_on_transformed_models"] = nh
+    except Exception as e:  # noqa
+        import traceback
+        ctx.broken.append(("harness-crash", "C03 history cases", traceback.format_exc()[-1500:]))
     ctx.cov["rule"] = ("point clouds (bivariate normal, sea-state like Weibull/log-normal, rounded values with ties, integer lattices, Cauchy/Pareto tails, "
                        "log-normal, collinear, two clusters; n 50..900 quick / ..4000 thorough) x alpha in [1e-4, 0.3] (incl. virtual index on an order statistic) x "
                        "deg_step over all divisors of 360 in [1, 60] (int and float typed, plus fractional divisors), sample supplied or drawn; "
